@@ -36,7 +36,26 @@ class P(StreamProperty):
         cw = case_codeword(c)
         count = {}
         last_src = None; last_idx = None
+        received = set()      # source ESIs the application has submitted so far
         for i, (l, o) in enumerate(zip(c.lines, c.impl)):
+            f = l.split()
+            if f[0] == 'recv' and kv(o).get('st') == 'OK':
+                # the symbol of this very call may legitimately have been rebuilt EARLIER (then no event now); an event
+                # for it now or later means the callback fired for a received symbol
+                for (e, sz) in events(o):
+                    if e == int(f[2]) or e in received:
+                        return [('c11:for-received:%s' % kind, 'callback invoked for source symbol %d, which had been received' % e, i)]
+                received.add(int(f[2]))
+            elif f[0] == 'avail':
+                es = set() if f[2] == '-' else set(int(x) for x in f[2].split(','))
+                for (e, sz) in events(o):
+                    if e in es or e in received:
+                        return [('c11:for-received:%s' % kind, 'callback invoked for source symbol %d, which is in the table of received symbols' % e, i)]
+                received |= es
+            elif f[0] == 'finish':
+                for (e, sz) in events(o):
+                    if e in received:
+                        return [('c11:for-received:%s' % kind, 'callback invoked for source symbol %d, which had been received' % e, i)]
             for (e, sz) in events(o):
                 if e >= k:
                     return [('c11:bad-esi:%s' % kind, 'callback invoked with ESI %d >= k' % e, i)]
